@@ -85,9 +85,9 @@ def simulate(p, n, dtype):
     nu, t0, T, U, c0 = p["nu"], p["t0"], p["T"], np.array(p["U"]), np.array(p["c0"])
     shape = (n,) * d
     if p["case"] == "lamb_oseen":
-        sim = sims.build(dict(kind="ns2d", shape=shape, x_range=1.0, nu=nu, dtype=dtype, threads=4, free_stream=True, time=t0, cfl=p["cfl"]))
+        sim = sims.build(dict(kind="ns2d", shape=shape, x_range=1.0, nu=nu, dtype=dtype, threads=1, free_stream=True, time=t0, cfl=p["cfl"]))
     else:
-        sim = sims.build(dict(kind="passive", shape=shape, x_range=1.0, nu=nu, dtype=dtype, threads=4, time=t0, cfl=p["cfl"],
+        sim = sims.build(dict(kind="passive", shape=shape, x_range=1.0, nu=nu, dtype=dtype, threads=1, time=t0, cfl=p["cfl"],
                               field_type="vector" if p["case"].endswith("vector") else "scalar"))
     pos = np.asarray(sim.position_field, np.float64)
     dx = float(sim.dx)
